@@ -139,7 +139,9 @@ func scopeC13() ([]*SrcPkg, map[string]map[string]c13Expect) {
 	}
 	// unnamed
 	iname := "UN0"
-	var ms []string
+	// A0 sorts first and forces numbered names (s1, s2, n1, n2) in its own scope; the rule
+	// for the single-parameter methods after it must not be affected
+	ms := []string{"A0(string, string, int, int)"}
 	expect[iname] = map[string]c13Expect{}
 	for j, u := range c13Unnamed {
 		m := fmt.Sprintf("M%d", j)
@@ -441,6 +443,7 @@ func runC20(tier string) int {
 		cfg Cfg
 	}
 	solo := map[soloKey]string{}
+	soloClean := map[soloKey]bool{}
 	var all []*Result
 	var mu sync.Mutex
 	runCases(fx, cases, rep, func(r *Result) []*Violation {
@@ -452,6 +455,9 @@ func runC20(tier string) int {
 	// solo shapes first
 	for _, r := range all {
 		if len(r.Case.Ifaces) == 1 && r.ok() {
+			if tc := r.Typecheck(); tc.ParseErr == nil && len(tc.Errs) == 0 {
+				soloClean[soloKey{r.Case.Ifaces[0], r.Case.Cfg}] = true
+			}
 			if s, ok := mockShape(r.Typecheck(), r.Case.mockNames()[0]); ok {
 				solo[soloKey{r.Case.Ifaces[0], r.Case.Cfg}] = s
 			}
@@ -466,6 +472,19 @@ func runC20(tier string) int {
 		if tc.ParseErr != nil || tc.File == nil {
 			rep.Violate(r.viol("list: joint output does not parse", ""))
 			continue
+		}
+		if len(tc.Errs) > 0 && len(r.Case.Ifaces) > 1 {
+			// the jointly generated file has type errors: C20's if every member is clean alone
+			allClean := true
+			for _, a := range r.Case.Ifaces {
+				if !soloClean[soloKey{a, r.Case.Cfg}] {
+					allClean = false
+				}
+			}
+			if allClean {
+				rep.Violate(r.viol("list: jointly generated file does not type-check although each of its mocks does when generated alone", tc.Errs[0].Error()))
+				continue
+			}
 		}
 		// top-level struct type declarations, in order
 		var decl []string
